@@ -87,6 +87,10 @@ def line(op, t, *bumps):
     for b in bumps:
         if isinstance(b, TD):
             parts.append('(L I:%d)' % (b // proto.US))
+        elif isinstance(b, int) and not isinstance(b, bool) and (b + len(parts) + t.day) % 3 == 0:
+            # "integers add exactly n days": an integer is every third time a numpy int64 (an element of np.arange, of a Series of
+            # lags): the wire spells it NI:, the model reads the same int (seeded C09-u2: timedelta(days = np.int64) raises)
+            parts.append('NI:%d' % b)
         else:
             parts.append(enc(b))
     return '(bump %s %s%s)' % (op, enc(t), ''.join(' ' + p for p in parts))
